@@ -265,3 +265,105 @@ func c15R6(c *Ctx) {
 		c.Violation("", "-", "no-duplicate-check", "no field walk consults a set of seen tags before rejecting (the duplicate-tag check was not found)")
 	}
 }
+
+// C15-R7: a relaxation switches off only its own check. In a validation function whose rejects
+// are enabled by boolean settings (parameters), an early success exit must imply, for every
+// reject site of the function, that one of the settings enabling that site is off — leaving
+// early under "A is off OR B is off" would silently disable B's check whenever A is relaxed.
+func c15R7(c *Ctx) {
+	p := c.P
+	n := 0
+	isBoolParam := func(o *Org) bool {
+		if o == nil || o.Kind != "param" || o.Val == nil {
+			return false
+		}
+		b, ok := o.Val.Type().Underlying().(*types.Basic)
+		return ok && b.Kind() == types.Bool
+	}
+	for _, fn := range p.FuncsIn(modPath) {
+		if fn.Pkg == nil || fn.Pkg.Pkg.Path() != modPath || fn.Parent() != nil {
+			continue
+		}
+		res := fn.Signature.Results()
+		if res.Len() == 0 || typeName(res.At(res.Len()-1).Type()) != "MessageRejectError" || p.isRejectCtor(fn) {
+			continue
+		}
+		// reject sites with their enabling settings
+		type site struct {
+			cl   ssa.CallInstruction
+			sets []*Atom
+		}
+		var sites []site
+		for _, cl := range Calls(fn) {
+			if !p.isRejectCtor(cl.Common().StaticCallee()) {
+				continue
+			}
+			// the site's own enabling setting: the innermost boolean-parameter test on its dominator chain
+			var sets []*Atom
+			for b := cl.Block(); b != nil && len(sets) == 0; b = b.Idom() {
+				id := b.Idom()
+				if id == nil {
+					break
+				}
+				iff, ok := id.Instrs[len(id.Instrs)-1].(*ssa.If)
+				if !ok {
+					continue
+				}
+				o := p.Origin(iff.Cond)
+				if isBoolParam(o) && id.Succs[0] == b {
+					sets = append(sets, &Atom{B: o, Val: true, Cond: iff.Cond, Want: true})
+				}
+			}
+			if len(sets) > 0 {
+				sites = append(sites, site{cl, sets})
+			}
+		}
+		if len(sites) == 0 {
+			continue
+		}
+		for _, b := range fn.Blocks {
+			r, ok := b.Instrs[len(b.Instrs)-1].(*ssa.Return)
+			if !ok || !p.Origin(r.Results[len(r.Results)-1]).IsNil() || inAnyLoop(fn, b) {
+				continue
+			}
+			d := p.ReachCond(b)
+			// early exit: mentions settings negatively and precedes the sites
+			early := false
+			for _, a := range d.Atoms() {
+				if a.Rel == "" && !a.Val && isBoolParam(a.B) {
+					early = true
+				}
+			}
+			for _, l := range naturalLoops(fn) {
+				if l.header.Dominates(b) {
+					early = false // after a loop: the walk has run, this is the ordinary success exit
+				}
+			}
+			if !early {
+				continue
+			}
+			for _, s := range sites {
+				if s.cl.Block().Dominates(b) || reaches(s.cl.Block(), b) && !reaches(b, s.cl.Block()) {
+					continue
+				}
+				n++
+				ok := d.Implies(func(a *Atom) bool {
+					if a.Rel != "" || a.Val || !isBoolParam(a.B) {
+						return false
+					}
+					for _, en := range s.sets {
+						if en.B.Param == a.B.Param {
+							return true
+						}
+					}
+					return false
+				})
+				c.Check(ok, FuncName(fn), p.InstrPos(r), "relaxation-covers:"+fnName(s.cl.Common().StaticCallee()), "the early exit implies that the setting enabling this reject is off",
+					"validation leaves early under "+d.String()+", which does not imply that the setting enabling the reject "+fnName(s.cl.Common().StaticCallee())+" (at "+p.InstrPos(s.cl.(ssa.Instruction))+") is off: relaxing one check silently switches off another")
+			}
+		}
+	}
+	if n == 0 {
+		c.Violation("", "-", "no-relaxation-exit", "no validation function has an early exit under relaxed settings")
+	}
+}
